@@ -1,6 +1,7 @@
 package main
 
 import (
+	"sort"
 	"fmt"
 	"go/ast"
 	"go/token"
@@ -287,6 +288,21 @@ func (c *ctx) shapeFacts() {
 				}
 			}
 		}
+	}
+	// the order of the assignments among themselves does not matter, their position relative to close does
+	{
+		var norm, group []string
+		for _, x := range md {
+			if x == "close" {
+				sort.Strings(group)
+				norm = append(append(norm, group...), "close")
+				group = nil
+			} else {
+				group = append(group, x)
+			}
+		}
+		sort.Strings(group)
+		md = append(norm, group...)
 	}
 	c.lean.WriteString("/-- `request.markDone`: the result is published before `done` is closed -/\n")
 	c.emitShape("shape_dedup_markDone", "dedupMarkDoneShape", md, fd != nil)
